@@ -923,18 +923,28 @@ impl FixtureDatabase {
             candidates.push(raw_name.to_string());
         }
 
-        // Search the pre-built index for matching .pth stems
-        for (stem, pth_path) in pth_index {
-            let matches = candidates.iter().any(|c| {
-                stem == c
-                    || stem.strip_prefix(c).is_some_and(|rest| {
-                        rest.starts_with('-')
-                            && rest[1..].starts_with(|ch: char| ch.is_ascii_digit())
+        // Search the pre-built index for matching .pth stems, in the order of the candidate
+        // list (and by name among the files matching one candidate): several path files may
+        // match - e.g. a stale one of an earlier install - and which one is used must not
+        // depend on the iteration order of the map.
+        let mut matching: Vec<(usize, &String, &PathBuf)> = pth_index
+            .iter()
+            .filter_map(|(stem, pth_path)| {
+                candidates
+                    .iter()
+                    .position(|c| {
+                        stem == c
+                            || stem.strip_prefix(c.as_str()).is_some_and(|rest| {
+                                rest.starts_with('-')
+                                    && rest[1..].starts_with(|ch: char| ch.is_ascii_digit())
+                            })
                     })
-            });
-            if !matches {
-                continue;
-            }
+                    .map(|priority| (priority, stem, pth_path))
+            })
+            .collect();
+        matching.sort();
+
+        for (_, _, pth_path) in matching {
 
             // Parse the .pth file: first non-comment, non-import line is the path
             let content = match std::fs::read_to_string(pth_path) {
